@@ -195,6 +195,9 @@ def spec_failures(case, line):
         bad.append('C13.illegal-listener-path')
     if 'lS' in ls[:-1]:
         bad.append('C13.shutdown-not-last')
+    # the task only ends by telling the listener Shutdown (an aborted task is killed: it tells nobody)
+    if p['done'] and 'lS' not in ls and not any(s[0] == 'A' for s in script):
+        bad.append('C13.task-ended-without-a-Shutdown-notification')
     # C13: no dial unless enabled: every 'd' directly follows 'lC'
     for a, b in zip(p['task'], p['task'][1:]):
         if b == 'd' and a[:2] != 'lC':
@@ -380,6 +383,7 @@ def spec_failures(case, line):
     live = cfg['handles']
     bound = 0
     pend = []
+    last_setting = None        # (wanted enabled?, surely accepted and processed by the end of the script?)
     for st in script:
         if st[0] == 'T':
             tnow += st[1]
@@ -391,10 +395,21 @@ def spec_failures(case, line):
                 bound = next_tick(bound + st[3] + RES) if bound is not None else None
             if bound is not None and not p['done'] and st[1] not in ids and len(set(submitted)) == len(submitted):
                 pend.append('C10.request-still-pending-although-every-deadline-has-passed')
+        elif st[0] in ('E', 'D') and live > 0:
+            # awaited sends are always accepted; a try_send (FFI) certainly is when nothing submitted earlier is still pending
+            sure = bound is not None and (st[1] != 'x' or bound <= tnow)
+            last_setting = (st[0] == 'E', sure)
         elif st[0] == 'X' and live > 0 and bound is not None:
             if not p['done'] and next_tick(max(bound, tnow) + 1) is not None:
                 pend.append('C13.shutdown-not-processed-although-every-earlier-request-is-over')
     bad += pend
+    # C13 "Disabled after a disable" / an enable really enables: the LAST enable / disable of the script, once it is certainly
+    # accepted and the task has had the time to take it, decides what the listener heard last
+    if last_setting and last_setting[1] and not p['done'] and not any(s[0] in ('~', 'A', 'H', 'X') for s in case[1]) and ls:
+        if last_setting[0] and ls[-1] == 'lD':
+            bad.append('C13.enable-accepted-but-the-channel-stays-disabled')
+        if not last_setting[0] and ls[-1] != 'lD':
+            bad.append('C13.disable-accepted-but-Disabled-is-never-reported')
     # C10: Shutdown is only reported when the task is gone, or when the submitting try_send itself was rejected
     if not p['done']:
         for i, c, t in p['comp']:
